@@ -1,1 +1,50 @@
-fn main() { println!("{}", cdshealpix::nested::hash(1, 0.1, 0.2)); let v: serde_json::Value = serde_json::json!({"a":1}); println!("{}", v); }
+//! hpx: the conformance harness binding the TLA+ specification to the real crate.
+//!   hpx record <scenario> --seed S --count N --out trace.ndjson     (impl -> spec: events for TLC)
+//!   hpx replay <scenario> --in cases.ndjson --out verdicts.ndjson   (spec -> impl: TLC-generated cases)
+mod geo;
+mod util;
+mod sc_nested;
+
+use std::io::BufRead;
+use util::*;
+
+fn main() {
+  let args = Args::parse();
+  if args.pos.len() < 2 { eprintln!("usage: hpx record|replay <scenario> [--seed S] [--count N] [--in F] [--out F]"); std::process::exit(2); }
+  silence_panics();
+  let seed = args.u64("seed", 1);
+  let mut out = Out::create(&args.get("out", "-"));
+  match args.pos[0].as_str() {
+    "record" => {
+      let count = args.u64("count", 1000);
+      let mut rng = Rng::new(seed);
+      match args.pos[1].as_str() {
+        "C01" => sc_nested::record_c01(&mut rng, count, &mut out),
+        "C02" => sc_nested::record_c02(&mut rng, count, &mut out),
+        "C04" => sc_nested::record_c04(&mut rng, count, &mut out),
+        s => { eprintln!("unknown record scenario {}", s); std::process::exit(2); }
+      }
+      out.flush();
+      eprintln!("{{\"events\": {}}}", out.n);
+    }
+    "replay" => {
+      let input = args.get("in", "-");
+      let rd: Box<dyn BufRead> = if input == "-" { Box::new(std::io::BufReader::new(std::io::stdin())) } else { Box::new(std::io::BufReader::new(std::fs::File::open(&input).expect("cannot open input"))) };
+      let mut stats = sc_nested::ReplayStats::default();
+      for l in rd.lines() {
+        let l = l.unwrap();
+        if l.trim().is_empty() { continue; }
+        let v: serde_json::Value = serde_json::from_str(&l).expect("bad json line");
+        stats.lines += 1;
+        match args.pos[1].as_str() {
+          "C01" => sc_nested::replay_c01(&v, &mut out, &mut stats),
+          "C04" => sc_nested::replay_c04(&v, &mut out, &mut stats),
+          s => { eprintln!("unknown replay scenario {}", s); std::process::exit(2); }
+        }
+      }
+      out.flush();
+      eprintln!("{{\"lines\": {}, \"calls\": {}, \"bad\": {}}}", stats.lines, stats.calls, stats.bad);
+    }
+    _ => { eprintln!("unknown command"); std::process::exit(2); }
+  }
+}
